@@ -586,7 +586,7 @@ func genC25(rt *rapid.T, steer c25Steer) (c c25Case, excluded int) {
 	slots := rapid.SliceOfNDistinct(rapid.IntRange(0, procs*len(vpns)-1), 1, maxPages, rapid.ID[int]).Draw(rt, "pages")
 	nOps := rapid.IntRange(3, 70).Draw(rt, "nops")
 	frames := rapid.SliceOfNDistinct(rapid.Uint64Range(1, 250), len(slots)+8, len(slots)+8, rapid.ID[uint64]).Draw(rt, "frames")
-	steeredRemote := false
+	steeredRemote, steeredPause := false, false
 	for i, s := range slots {
 		p := pageCfg{PID: uint32(s%procs) + 1, VPN: vpns[s/procs], Frame: frames[i]}
 		if c.Bottom == "gmmu" {
@@ -658,7 +658,10 @@ func genC25(rt *rapid.T, steer c25Steer) (c c25Case, excluded int) {
 				c.Ops = append(c.Ops, touch(p, 0))
 			}
 			iv := opCfg{K: "inv", Gap: rapid.IntRange(0, 8).Draw(rt, "igap")}
-			iv.Inv.Mode = rapid.SampledFrom([]string{"drain", "drain", "drain", "quiesce"}).Draw(rt, "mode")
+			iv.Inv.Mode = rapid.SampledFrom([]string{"drain", "drain", "drain", "quiesce", "pause"}).Draw(rt, "mode")
+			if iv.Inv.Mode == "pause" && steer.pause {
+				iv.Inv.Mode, steeredPause = "drain", true
+			}
 			iv.Inv.DrainAT = rapid.IntRange(0, 3).Draw(rt, "drainat") == 0
 			iv.Inv.Wait = rapid.Bool().Draw(rt, "wait")
 			iv.Inv.Addrs = []uint64{}
@@ -702,7 +705,10 @@ func genC25(rt *rapid.T, steer c25Steer) (c c25Case, excluded int) {
 			updated = append(updated, o.Page)
 		case k < 96:
 			o.K = "inv"
-			o.Inv.Mode = rapid.SampledFrom([]string{"drain", "drain", "quiesce"}).Draw(rt, "mode")
+			o.Inv.Mode = rapid.SampledFrom([]string{"drain", "drain", "quiesce", "pause"}).Draw(rt, "mode")
+			if o.Inv.Mode == "pause" && steer.pause {
+				o.Inv.Mode, steeredPause = "drain", true
+			}
 			o.Inv.DrainAT = rapid.Bool().Draw(rt, "drainat")
 			o.Inv.Wait = rapid.Bool().Draw(rt, "wait")
 			o.Inv.Addrs = []uint64{}
@@ -734,6 +740,9 @@ func genC25(rt *rapid.T, steer c25Steer) (c c25Case, excluded int) {
 		c.Ops = append(c.Ops, o)
 	}
 	if steeredRemote {
+		excluded++
+	}
+	if steeredPause {
 		excluded++
 	}
 	return c, excluded
@@ -788,7 +797,7 @@ func TestC25Stack(t *testing.T) {
 	}
 
 	steer := c25Steering(s)
-	kit.SetChecks(1500, 6000)
+	kit.SetChecks(3000, 20000)
 	rapid.Check(t, func(rt *rapid.T) {
 		c, ex := genC25(rt, steer)
 		if ex > 0 {
@@ -880,4 +889,49 @@ func TestC25Known_GMMURemoteRspTo(t *testing.T) {
 	reproduce(t, "known-gmmu-remote-rspto",
 		"deterministic: [AT ->] GMMU -> MMU, one mapped page owned by another device, a single TranslationReq at the GMMU's Top / a single read through the translator",
 		sigGMMURemote, cases, "gmmu respondMW answers a remote walk with RspTo = the ID of the MMU's response instead of the ID of the request it received")
+}
+
+// pauseInvalCases: Update of page 0 while a miss for it is in flight, then
+// Pause -> Invalidate(all) -> Enable on every TLB (no Drain), then one more
+// request for the page well after the round.
+func pauseInvalCases() []c25Case {
+	var cases []c25Case
+	// (a) one TLB over the MMU: the MMU read the table just before the Update
+	for g := 0; g <= 20; g++ {
+		c := onePageCase()
+		c.MMULat = 4
+		c.TLBs = []tlbCfg{{Sets: 1, Ways: 1, MSHR: 1, Lat: 2, RPC: 1}}
+		c.Ops = []opCfg{
+			{K: "tr", Page: 0, Level: 0},
+			{K: "upd", Page: 0, Frame: 2, Gap: g},
+			{K: "inv", Inv: invCfg{Mode: "pause", Addrs: []uint64{}, Wait: true}},
+			{K: "tr", Page: 0, Level: 0, Gap: 40},
+		}
+		cases = append(cases, c)
+	}
+	// (b) two TLBs: the lower one is warm and still answers the old mapping
+	// until it is invalidated itself
+	for g := 0; g <= 20; g++ {
+		c := onePageCase()
+		c.TLBs = []tlbCfg{{Sets: 1, Ways: 1, MSHR: 1, Lat: 2, RPC: 1}, {Sets: 1, Ways: 1, MSHR: 1, Lat: 3, RPC: 1}}
+		c.Ops = []opCfg{
+			{K: "tr", Page: 0, Level: 1}, // warms TLB1 only
+			{K: "fence"},
+			{K: "upd", Page: 0, Frame: 2},
+			{K: "tr", Page: 0, Level: 0},
+			{K: "inv", Gap: g, Inv: invCfg{Mode: "pause", Addrs: []uint64{}, Wait: true}},
+			{K: "tr", Page: 0, Level: 0, Gap: 40},
+		}
+		cases = append(cases, c)
+	}
+	return cases
+}
+
+// TestC25Known_PauseInvalidateInflight: Pause (instead of Drain) before the
+// Invalidate, with a miss in flight.
+func TestC25Known_PauseInvalidateInflight(t *testing.T) {
+	reproduce(t, "known-pause-invalidate-inflight",
+		"deterministic: AT -> TLB -> MMU(latency 4) with the Update 0-8 cycles after a TranslationReq, and AT -> TLB0 -> TLB1(warm) -> MMU with the round 0-8 cycles after a TranslationReq; round = Pause, Invalidate(all), Enable on every TLB (no Drain); one more TranslationReq 40 cycles after the round",
+		sigPauseInval, pauseInvalCases(),
+		"Pause -> Invalidate -> Enable (all acknowledged) while a TLB miss is in flight: the late fill installs the mapping fetched before the page-table change and later requests hit it")
 }
